@@ -66,10 +66,9 @@ Definition run_case (c : case) :=
   match convert_cells fuel cells matching u0 u1 todo (mkSt cnt0 [] [] []) with
   | Err e => OErr e
   | Ok s =>
-      match (match rn with None => Ok (vols s) | Some r => renumber r (vols s) end) with
+      match prune u0 u1 rn (vols s) with
       | Err e => OErr e
-      | Ok d =>
-          let fin := remove_unused (remove_empty u0 u1 d) in
+      | Ok fin =>
           OOk (cnt s) (ctable (vols s)) (canon_dict (scache s)) (canon_dict (ccache s))
               (ctable fin) (Some (ctable (written skipped fin)))
       end
